@@ -101,7 +101,7 @@ def prune (c : Cfg) (s : St) : St :=
 def needRotate (c : Cfg) (bytesWritten elapsed : Nat) : Bool :=
   (bytesWritten ≥ c.maxBytes && c.maxBytes > 0) || ((elapsed : Int) > c.maxDuration && c.maxDuration > 0)
 
-inductive Res | ok | errRotate
+inductive Res | ok | errRotate | errFormat
   deriving DecidableEq, Repr, Inhabited
 
 def closeFd (s : St) : St := { s with fd := none, fdName := none }
@@ -124,6 +124,7 @@ inductive Op
   | write (ev size elapsed : Nat)   -- Process of an event of `size` bytes, `elapsed` since LastCreated
   | reopen
   | extRename (k : Nat)             -- somebody renames the active file to a foreign name
+  | noFormat                        -- Process of an event that has no bytes for the sink's format
   deriving Repr, Inhabited
 
 def appendTo (s : St) (i ev size : Nat) : St :=
@@ -152,6 +153,7 @@ def step (c : Cfg) (s : St) : Op → St × Res
         ({ s with dir := s.dir.map (fun x => if x.1 == n then (Name.foreign k, x.2) else x) }, .ok)
       else (s, .ok)
     | none => (s, .ok)
+  | .noFormat => (s, .errFormat)    -- "event was not marshaled": decided before the file is looked at, nothing changes
 
 def run (c : Cfg) (s : St) (ops : List Op) : St := ops.foldl (fun s o => (step c s o).1) s
 
